@@ -34,14 +34,18 @@ def run(ctx):
     sm, bg = mdl["small"], mdl["big"]
     ctx.evidence("model_checking",
                  assumptions=["two agents, %d connection generations (%d in the replayed instance), dials by either side at any "
-                              "time, keepalive teardown by %s (replayed: %s), %d Manager.Disconnect, %d announcement, %d relayed stream"
-                              % (bg[0], sm[0], "/".join(bg[4]), "/".join(sm[4]), bg[2], bg[1], bg[3]),
+                              "time, keepalive failure at %s (replayed: %s; %d stuck keepalive iterations), %d Manager.Disconnect, "
+                              "%d announcement, %d relayed stream; registerConnection as check + insert steps in the checked instance"
+                              % (bg[0], sm[0], "/".join(bg[4]), "/".join(sm[4]), bg[5], bg[2], bg[1], bg[3]),
                               "handleDisconnect and the agent's disconnect callback are one step (a registration completing "
                               "between the slot update and the callback would need a whole handshake inside that window)",
                               "closing a link is seen by the read loops of both ends at once (in-memory links; half-open "
                               "connections are not modelled); a read loop always ends in a teardown",
-                              "the keepalive thread's teardown is driven by the harness (same two calls as keepaliveLoop); "
-                              "real timers are set to one hour"],
+                              "a's real keepaliveLoop runs (25 ms interval); its failure path is reached by letting a keepalive "
+                              "write that the harness holds inside the transport return an error; the timeout branch "
+                              "(unreachable while writes succeed) is not exercised",
+                              "RegCheck/RegInsert interleavings are model-checked and provoked on the code by the race driver "
+                              "(lockstep at the manager mutex + free-running), not replayed step by step"],
                  states=big.distinct, transitions=big.generated,
                  replayed_states=ideal.distinct, replayed_transitions=rp["edges"],
                  traces_validated_against_impl=tot["paths"] + len(rp["scenarios"]),
@@ -50,5 +54,8 @@ def run(ctx):
                  replay_violations=tot["viol"], replay_divergences=tot["diverged"],
                  deviation_scenarios=[{"name": s["name"], "oracle": s["oracle"], "skipped_steps": s["skipped"]} for s in rp["scenarios"]],
                  deviations_caught=mdl["caught"],
+                 race_lockstep_rounds=rp["race"]["lockstep"], race_lockstep_aligned=rp["race"]["aligned"],
+                 race_free_rounds=rp["race"]["free"], race_outcomes=rp["race"]["outcomes"],
+                 race_violations=len(rp["race"]["violations"] or []),
                  samples=[{"replay_path": [s["a"] for s in mid["steps"]]},
                           {"deviation_scenario": mdl["seeds"][0]}])
